@@ -86,7 +86,8 @@ Inductive xfer :=
 | XNone
 | XWait (d : dir) (c : Q)     (* worker waits for the data connection since the command at c *)
 | XMove (d : dir) (p : Q).    (* data I/O pending since p (= time of last progress) *)
-Inductive cause := CIdle | CData | CCtrlWrite | CWaitFail.
+Inductive cause := CIdle | CData | CCtrlWrite | CWaitFail
+                 | CError (* not a timeout: the reader task failed (undecodable line, peer closed) *).
 
 Record state := {
   armed : Q;                   (* start of the pending control readline *)
@@ -259,6 +260,19 @@ Definition start (w : wiring) (c : config) (t0 : Q) : state :=
 Definition run (w : wiring) (c : config) (t0 : Q) (evs : list event) : state :=
   finish w c (run_events w c (start w c t0) evs).
 
+(* the reader task fails at [t] (parse_command raises: a command line that is not valid in the server encoding --
+   UnicodeDecodeError -- or the peer closed its control connection -- ConnectionResetError): an exception for the
+   dispatcher like a TimeoutError, the session ends at that instant unless a deadline ended it before *)
+Definition abort_at (w : wiring) (c : config) (s : state) (t : Q) : state :=
+  let s' := step w c s (Tick t) in
+  match ended s' with
+  | Some _ => s'
+  | None => set_ended s' (t, CError)
+  end.
+
+Definition run_abort (w : wiring) (c : config) (t0 : Q) (evs : list event) (t : Q) : state :=
+  abort_at w c (run_events w c (start w c t0) evs) t.
+
 (* ---- the wiring as a function of the regenerated source facts (strings) ---- *)
 Open Scope string_scope.
 
@@ -365,7 +379,7 @@ Definition event_of_sx (s : sx) : event :=
   end.
 
 Definition z_of_cause (c : cause) : Z :=
-  match c with CIdle => 0 | CData => 1 | CCtrlWrite => 2 | CWaitFail => 3 end%Z.
+  match c with CIdle => 0 | CData => 1 | CCtrlWrite => 2 | CWaitFail => 3 | CError => 4 end%Z.
 
 Definition sx_of_xfer (x : xfer) : sx :=
   match x with
@@ -395,6 +409,9 @@ Definition run_timeouts (fn : Z) (a : sx) : sx :=
       L [ sx_of_oq (eval c (w_ctrl_read std_wiring)); sx_of_oq (eval c (w_ctrl_write std_wiring));
           sx_of_oq (eval c (w_data_read std_wiring)); sx_of_oq (eval c (w_data_write std_wiring));
           sx_of_oq (eval c (w_wait std_wiring)) ]
+  | 4%Z => (* run_abort: config, t0, events, instant at which the reader task fails *)
+      sx_of_state (run_abort std_wiring (config_of_sx (nth_sx 0 a)) (q_of_sx (nth_sx 1 a))
+                             (map event_of_sx (list_of_sx (nth_sx 2 a))) (q_of_sx (nth_sx 3 a)))
   | 3%Z => (* deadline start T *)
       sx_of_oq (deadline (q_of_sx (nth_sx 0 a)) (oq_of_sx (nth_sx 1 a)))
   | _ => sx_err 99
